@@ -54,6 +54,7 @@ func c04WholeOnce(t *testing.T, s *sim.Scn, k int, o *sim.Outcome) (fired bool) 
 				rw.aggAddr = fmt.Sprintf("%s/p2p/%s", addr, pid)
 			}
 		}
+		rw.applyJitter()
 		agg, full := rw.nodes[0], rw.nodes[1]
 		rw.w.DA.AutoAdvance = true
 		stopAll := func() {
@@ -219,7 +220,7 @@ func c04WholeRun(t *testing.T, s *sim.Scn) *sim.Outcome {
 
 func c04WholeGen(r *rand.Rand, tier string) *sim.Scn {
 	s := &sim.Scn{Cfg: map[string]int64{"whole": 1, "bt": []int64{200, 500, 1000}[r.IntN(3)], "dat": 1000, "peer": r.Int64N(2),
-		"warm": []int64{0, 0, 300, 1200, 2500, 6000}[r.IntN(6)], "txs": r.Int64N(3), "lazy": 0, "k0": r.Int64N(3), "kstep": 1 + r.Int64N(3), "eager": r.Int64N(2), "linkms": r.Int64N(40), "down": r.Int64N(3)}}
+		"warm": []int64{0, 0, 300, 1200, 2500, 6000}[r.IntN(6)], "txs": r.Int64N(3), "lazy": 0, "k0": r.Int64N(3), "kstep": 1 + r.Int64N(3), "eager": r.Int64N(2), "linkms": r.Int64N(40), "down": r.Int64N(3), "jitter": []int64{0, 0, 0, 400, 4000}[r.IntN(5)], "jsalt": r.Int64N(1 << 30)}}
 	if tier == "thorough" {
 		s.Cfg["kstep"] = 1
 		s.Cfg["k0"] = 0
